@@ -187,7 +187,8 @@ func (ctrler *StakeCtrler) BeginBlock(blockCtx *ctrlertypes.BlockContext) ([]abc
 	//           : At this point, the validators have their power committed at block N (= `height` - 4).
 	issuedReward := uint256.NewInt(0)
 	heightOfPower := blockCtx.Height() - 4
-	if heightOfPower < 0 {
+	if heightOfPower <= 0 {
+		// version 0 would load the latest (not an early) state of the ledger
 		heightOfPower = 1
 	}
 
